@@ -360,6 +360,24 @@ def nat_histories(h):
                 h.check(sorted(db, key=key) == sorted(ref, key=key), D + 'to_sql.py::SQLDumper.process_resource', cfg, ref, db)
         finally:
             shutil.rmtree(d, ignore_errors=True)
+    # second use: the same Flow object (and the same dump_to_sql step object) run again writes again, as its mode prescribes
+    for mode, want in (('append', [1, 2, 1, 2]), ('rewrite', [1, 2]), ('update', [1, 2])):
+        for how in ('same-flow', 'same-step'):
+            d = tempfile.mkdtemp(prefix='c20u_')
+            try:
+                eng = create_engine('sqlite:///' + os.path.join(d, 'db.sqlite'))
+                step = dump_to_sql({'t': {'resource-name': 'res_1', 'mode': mode, 'update_keys': ['id']}}, engine=eng)
+                mk = lambda: Flow([{'id': 1, 'v': 'a'}, {'id': 2, 'v': 'b'}], step)
+                f = mk()
+                r1 = h.run(lambda: f.process())
+                f2 = f if how == 'same-flow' else mk()
+                r2 = h.run(lambda: f2.process())
+                with eng.connect() as c:
+                    ids = [row[0] for row in c.execute(text('select id from t order by rowid'))]
+                h.check(r1[0] == 'ok' and (r2[0] != 'ok' or ids == want), D + 'to_sql.py::SQLDumper.process_resource',
+                        ('second use', mode, how), want, (r1[0], r2[0], ids))
+            finally:
+                shutil.rmtree(d, ignore_errors=True)
     # rewrite after a dump whose columns had the same names but other types: the table holds exactly the dumped values
     # (typed as dumped, not coerced to the previous column types), and a later update finds its row by that key
     for first, second in (([{'id': 1, 'v': 5}, {'id': 2, 'v': 6}], [{'id': 1, 'v': '007'}, {'id': 3, 'v': '1e3'}, {'id': 4, 'v': 'x'}]),
